@@ -2,8 +2,9 @@
 from props import C19
 from props.common_prog import judge_prog
 
-THEOREM_MODULES = ["Hcl.Theorems.C10", "Hcl.Tie.PinsGraph", "Hcl.Theorems.C10Exact", "Hcl.Theorems.C08Spec"]
-THEOREMS = {"Hcl.Theorems.C08Spec": ["C08_spec_accepts_sound", "C08_spec_accepts_complete", "C08_spec_faults_iff_accepted", "accepted_design_tables", "SF.cyclicNodes_nil_iff", "SF.faults_nil_iff"],
+THEOREM_MODULES = ["Hcl.Theorems.C10", "Hcl.Tie.PinsGraph", "Hcl.Theorems.C10Exact", "Hcl.Theorems.C08Spec", "Hcl.Tie.PinsRefs"]
+THEOREMS = {"Hcl.Tie.PinsRefs": ["Tie.PinsRefs.pinApplyToAll", "Tie.PinsRefs.pinApplyToAllMut", "Tie.PinsRefs.pinReferencedWires", "Tie.PinsRefs.pinFindReferences"],
+            "Hcl.Theorems.C08Spec": ["C08_spec_accepts_sound", "C08_spec_accepts_complete", "C08_spec_faults_iff_accepted", "accepted_design_tables", "SF.cyclicNodes_nil_iff", "SF.faults_nil_iff"],
             "Hcl.Theorems.C10Exact": ["C10_constant_loop_reported", "C10_wire_loop_reported", "C10_constants_cycle_iff", "resolveConstants_cycle_reported", "assignmentsToActions_cycle_reported"],
             "Hcl.Theorems.C10": ["C10_accepted_acyclic", "C10_cycle_iff", "C10_sorter_spec", "C10_never_panics", "C10_reported_loop_is_real",
                                  "C10_reported_loop_real", "Program_new_nl", "resolveConstants_nl", "assignmentsToActions_nl", "check_nl"],
